@@ -20,8 +20,10 @@ def analysis():
     return _analysis
 
 
-def ob(name, ok, sites=(), goal=""):
-    return {"name": name, "status": "unsat" if ok else "sat", "backend": "frame", "time_s": 0.0,
+def ob(name, ok, sites=(), goal="", sufficient_only=False):
+    """sufficient_only: the obligation is a syntactic SUFFICIENT condition for the property (a recognised idiom); code that no longer
+    matches the idiom is not thereby wrong, so a failure is a lost proof ('unknown'), never a counterexample"""
+    return {"name": name, "status": "unsat" if ok else ("unknown" if sufficient_only else "sat"), "backend": "frame", "time_s": 0.0,
             "model": None if ok else {"sites": [s.as_dict() if isinstance(s, Site) else s for s in list(sites)[:6]]},
             "goal_text": goal, "meta": {}}
 
@@ -503,7 +505,8 @@ def unit_R(tier):
                 bad.append({"file": ci.file, "line": n.lineno, "qualname": f"{ci.name}.{name}", "kind": "mutating-call-on-budget-manager",
                             "text": unparse(n)[:80], "origins": ["budget_manager_"]})
         obs.append(ob(f"R.{ci.name}.{name}", not bad, bad,
-                      f"after validation, {ci.name}.{name} leaves every attribute as it found it (writes: {sorted(W)}; restored: {sorted(restored)})"))
+                      f"after validation, {ci.name}.{name} leaves every attribute as it found it (writes: {sorted(W)}; restored: {sorted(restored)})",
+                      sufficient_only=True))
     return result("frames.R", "skactiveml/stream/**: query / query_by_utility", obs,
                   lib=["restore idioms: tmp = copy(self.a) ... self.a = tmp; s = rng.get_state() ... rng.set_state(s)"])
 
